@@ -4,6 +4,7 @@ import Proofs.SqlBuildCause
 import Proofs.SqlValueForms
 import Proofs.SqlCharRoundtrip
 import Proofs.SqlBuildShape
+import Proofs.SqlLoaderShape
 import Proofs.SqlRegex
 
 /-!
@@ -271,6 +272,101 @@ theorem loader_shape_tie :
     Gen.BuildShape.buildMetamodel = ["v0 = xtuml.MetaModel(id_generator)", "self.populate(v0)", "return v0"] ∧
     Gen.BuildShape.inputSteps = [("parse", "v0"), ("extend", "v0")] ∧
     Gen.BuildShape.associationCalls = ["define_association", "formalize"] := ⟨rfl, rfl, rfl⟩
+
+/-- SOURCE TIE, `build_metamodel` as a whole, for EVERY statement list: the model's `build` is the generic interpretation
+    (`iBuildMetamodel`, Proofs/SqlLoaderShape.lean: bind a fresh metamodel, run `populate` = the generic phase runner on the
+    generated phase order on the metamodel bound to the name, return what the name is bound to; no handler: an exception of
+    `populate` is the outcome and nothing is returned) of the statement list generated from the source now.  A
+    `build_metamodel` that populated another name, returned before populating, or populated twice is another list. -/
+theorem build_metamodel_as_in_source (u : UC) (stmts : List Stmt) :
+    iBuildMetamodel u stmts Gen.BuildShape.populateOrder Gen.BuildShape.buildMetamodel [] = some (build u stmts) :=
+  build_eq_iBuildMetamodel u stmts
+
+/-- … and what it does when a phase raises, for EVERY split `pre ++ p :: post` of the generated phase order: when the phases
+    `pre` succeed (reaching `s'`) and `p` raises `e` on `s'`, the build IS that exception - the phases `post` never run, the
+    half-populated metamodel `s'` is returned to nobody (the only metamodel of the call was the fresh one bound inside it) -/
+theorem build_phase_raises_as_in_source (u : UC) (stmts : List Stmt) (pre post : List Gen.BuildShape.Phase)
+    (p : Gen.BuildShape.Phase) (s' : BState) (e : BuildErr) (hsplit : Gen.BuildShape.populateOrder = pre ++ p :: post)
+    (hpre : runPhases u stmts pre BState.empty = .ok s') (he : phaseFn u stmts p s' = .error e) :
+    build u stmts = .error e ∧
+    iBuildMetamodel u stmts Gen.BuildShape.populateOrder Gen.BuildShape.buildMetamodel [] = some (.error e) := by
+  have h : build u stmts = .error e := by
+    rw [build_follows_source, hsplit]
+    exact runPhases_raises u stmts p post e pre BState.empty s' hpre he
+  exact ⟨h, by rw [build_metamodel_as_in_source, h]⟩
+
+/-- … and when no phase raises, the result is the metamodel the last phase left -/
+theorem build_all_phases_as_in_source (u : UC) (stmts : List Stmt) (s' : BState)
+    (h : runPhases u stmts Gen.BuildShape.populateOrder BState.empty = .ok s') :
+    build u stmts = .ok s' ∧
+    iBuildMetamodel u stmts Gen.BuildShape.populateOrder Gen.BuildShape.buildMetamodel [] = some (.ok s') := by
+  have hb : build u stmts = .ok s' := by rw [build_follows_source, h]
+  exact ⟨hb, by rw [build_metamodel_as_in_source, hb]⟩
+
+/-- SOURCE TIE, `input`, for EVERY loader and text: `Loader.input` is the generic interpretation (`iInputSteps`) of the steps
+    generated from the source now - the whole text is parsed and bound to a name first (a ParsingException ends the call with
+    `self.statements` as it was), and only then is `self.statements` extended by what that name is bound to -/
+theorem input_as_in_source (u : UC) (l : Loader) (text : Text) :
+    iInputSteps u text Gen.BuildShape.inputSteps l [] = some (l.input u text) := input_eq_iInputSteps u l text
+
+/-- SOURCE TIE, `populate_associations`, for EVERY statement list and metamodel: the model's phase 3 is the generic
+    interpretation (`iPopAssocs`: for each CREATE ROP statement make the listed calls in order - `define_association` checks
+    and records the association and returns it, `formalize` of the returned association makes its source keys referential -;
+    the first exception ends the phase) of the call list generated from the source now -/
+theorem populate_associations_as_in_source (u : UC) (stmts : List Stmt) (s : BState) :
+    iPopAssocs u Gen.BuildShape.associationCalls stmts s = some (popAssocs u stmts s) := popAssocs_eq_iPopAssocs u stmts s
+
+/-! non-vacuity of the four ties above.  (1) other statement lists of `build_metamodel` are other functions: returning before
+    populating gives the EMPTY metamodel, populating a name that was never bound is no outcome of the model; (2) a phase that
+    raises: an association to a class that does not exist ends the build in phase 3 with `pre = [classes, unique_identifiers]`
+    succeeding; in another phase order (associations first) a loadable input is refused; (3) other step orders of `input`:
+    extending before parsing reads an unbound name, extending twice doubles the statements; (4) `populate_associations`
+    without `formalize` leaves the source keys non-referential, `formalize` before `define_association` has no association. -/
+example (u : UC) (stmts : List Stmt) :
+    iBuildMetamodel u stmts Gen.BuildShape.populateOrder ["v0 = xtuml.MetaModel(id_generator)", "return v0", "self.populate(v0)"] [] =
+      some (.ok BState.empty) ∧
+    iBuildMetamodel u stmts Gen.BuildShape.populateOrder ["v0 = xtuml.MetaModel(id_generator)", "self.populate(v1)", "return v0"] [] = none ∧
+    (∀ m, build u stmts = .ok m →
+      iBuildMetamodel u stmts Gen.BuildShape.populateOrder ["v0 = xtuml.MetaModel(id_generator)", "self.populate(v0)"] [] = none) := by
+  refine ⟨rfl, rfl, ?_⟩
+  intro m h
+  rw [build_follows_source] at h
+  simp [iBuildMetamodel, bmStmt, bmGet, bmSet, h]
+
+example :
+    let stmts : List Stmt := [.createTable ['A'] [(['i'], "INTEGER".toList)],
+                             .createRop ['R', '1'] ['A'] [] [['i']] [] ['B'] [] [['j']] []]
+    (∃ s', runPhases UC.ascii stmts [.classes, .unique_identifiers] BState.empty = .ok s' ∧
+        phaseFn UC.ascii stmts .associations s' = .error .metaErr) ∧
+      build UC.ascii stmts = .error .metaErr := by
+  refine ⟨⟨⟨[⟨['A'], [(['i'], "INTEGER".toList)], [], [], []⟩], []⟩, rfl, rfl⟩, ?_⟩
+  exact (build_phase_raises_as_in_source UC.ascii _ [.classes, .unique_identifiers] [.instances, .connections] .associations
+    ⟨[⟨['A'], [(['i'], "INTEGER".toList)], [], [], []⟩], []⟩ .metaErr rfl rfl rfl).1
+
+example :
+    let stmts : List Stmt := [.createTable ['A'] [(['i'], "INTEGER".toList)], .createTable ['B'] [(['j'], "INTEGER".toList)],
+                             .createRop ['R', '1'] ['A'] [] [['i']] [] ['B'] [] [['j']] []]
+    (match build UC.ascii stmts with | .ok _ => true | .error _ => false) = true ∧
+    (match runPhases UC.ascii stmts [.associations, .classes, .unique_identifiers, .instances, .connections] BState.empty with
+      | .error .metaErr => true | _ => false) = true := by decide
+
+example (u : UC) (l : Loader) (text : Text) (stmts : List Stmt) (h : classify u text = .accepted stmts) :
+    iInputSteps u text [("extend", "v0"), ("parse", "v0")] l [] = none ∧
+    iInputSteps u text [("parse", "v0"), ("extend", "v0"), ("extend", "v0")] l [] =
+      some (⟨l.statements ++ stmts ++ stmts⟩, .accepted) ∧
+    iInputSteps u text Gen.BuildShape.inputSteps l [] = some (⟨l.statements ++ stmts⟩, .accepted) := by
+  refine ⟨rfl, ?_, ?_⟩
+  · simp [iInputSteps, h]
+  · simp [Gen.BuildShape.inputSteps, iInputSteps, h]
+
+example :
+    let stmts : List Stmt := [.createRop ['R', '1'] ['A'] [] [['i']] [] ['B'] [] [['j']] []]
+    let s : BState := ⟨[⟨['A'], [(['i'], "INTEGER".toList)], [], [], []⟩, ⟨['B'], [(['j'], "INTEGER".toList)], [], [], []⟩], []⟩
+    (iPopAssocs UC.ascii Gen.BuildShape.associationCalls stmts s).map (fun r => match r with
+      | .ok s' => s'.classes.map (·.referential) | .error _ => []) = some [[['i']], []] ∧
+    (iPopAssocs UC.ascii ["define_association"] stmts s).map (fun r => match r with
+      | .ok s' => s'.classes.map (·.referential) | .error _ => []) = some [[], []] ∧
+    iPopAssocs UC.ascii ["formalize", "define_association"] stmts s = none := ⟨by decide, by decide, rfl⟩
 
 /-- the model's matchers were written for exactly the regular expressions the source states now -/
 theorem regex_tie (r : Gen.SqlLex.Rule) : Gen.SqlLex.Rule.regex r = modelledRegex r := by
